@@ -562,4 +562,122 @@ func runC19(c *Ctx) {
 	}
 	// R6: on the os-backed server the read-only gate runs before handlePacket; an unknown extension must pass it
 	checkExtendedReadonly(c, "C19")
+	// R7: what is served is what is advertised
+	checkDecodedOnlyIfConfigured(c, "R7")
+}
+
+// checkDecodedOnlyIfConfigured (C19.R7): "advertised ⊆ served" is R5; this is the converse.  The extended-request
+// decoder must give a request a specific packet only for a name that is in the *configured* list sftpExtensions
+// (what VERSION advertises), not merely in the built-in table: every store of a non-nil SpecificPacket is reached only
+// after a test — inline or through a bool helper — that compares the request name with the Name of an element of
+// sftpExtensions and came out true.
+func checkDecodedOnlyIfConfigured(c *Ctx, rule string) {
+	p := c.P
+	ub := p.Func("(*sshFxpExtendedPacket).UnmarshalBinary")
+	if ub == nil {
+		c.missing(rule, "(*sshFxpExtendedPacket).UnmarshalBinary")
+		return
+	}
+	// does fn compare a Name field of sftpExtensions' elements?  returns the set of "true" returns' validity
+	consults := func(fn *ssa.Function) bool {
+		readsList, cmpName := false, false
+		eachInstr(fn, func(in ssa.Instruction) {
+			if u, ok := in.(*ssa.UnOp); ok && u.Op == token.MUL {
+				if g, ok := u.X.(*ssa.Global); ok && g.Name() == "sftpExtensions" {
+					readsList = true
+				}
+			}
+			if b, ok := in.(*ssa.BinOp); ok && b.Op == token.EQL {
+				for _, side := range []ssa.Value{b.X, b.Y} {
+					for _, l := range leavesOf(side) {
+						if l.Kind == leafFieldLoad && l.Field == "Name" {
+							cmpName = true
+						}
+					}
+				}
+			}
+		})
+		return readsList && cmpName
+	}
+	// a bool helper is sound when it returns true only under the name comparison
+	helperOK := func(fn *ssa.Function) bool {
+		if !consults(fn) || fn.Signature.Results().Len() != 1 {
+			return false
+		}
+		for _, rl := range returnLeaves(fn, 0) {
+			k, ok := rl.v.(*ssa.Const)
+			if !ok {
+				return false
+			}
+			if k.Value != nil && constant.BoolVal(k.Value) {
+				under := false
+				for cv, truth := range edgeConds(rl.block, rl.pred) {
+					if b, ok := cv.(*ssa.BinOp); ok && b.Op == token.EQL && truth {
+						under = true
+					}
+				}
+				if !under {
+					return false
+				}
+			}
+		}
+		return true
+	}
+	n := 0
+	eachInstr(ub, func(in ssa.Instruction) {
+		st, ok := in.(*ssa.Store)
+		if !ok {
+			return
+		}
+		if _, name, _, ok := fieldOf(st.Addr); !ok || name != "SpecificPacket" {
+			return
+		}
+		if isNilConst(st.Val) {
+			return
+		}
+		n++
+		guarded := false
+		for cv, truth := range edgeConds(st.Block(), nil) {
+			switch x := cv.(type) {
+			case *ssa.Call:
+				if f := x.Call.StaticCallee(); f != nil && truth && helperOK(f) {
+					guarded = true
+				}
+			case *ssa.UnOp:
+				if call, ok := x.X.(*ssa.Call); ok && x.Op == token.NOT && !truth {
+					if f := call.Call.StaticCallee(); f != nil && helperOK(f) {
+						guarded = true
+					}
+				}
+			case *ssa.Phi:
+				// inline flag: set to true only under the name comparison inside this function
+				if truth && consults(ub) {
+					okPhi := true
+					for i, e := range x.Edges {
+						if k, ok := e.(*ssa.Const); ok && k.Value != nil && constant.BoolVal(k.Value) {
+							under := false
+							for cv2, t2 := range edgeConds(x.Block(), x.Block().Preds[i]) {
+								if b, ok := cv2.(*ssa.BinOp); ok && b.Op == token.EQL && t2 {
+									under = true
+								}
+							}
+							if !under {
+								okPhi = false
+							}
+						}
+					}
+					if okPhi {
+						guarded = true
+					}
+				}
+			}
+		}
+		what := typeName(st.Val.Type())
+		if mi, ok := st.Val.(*ssa.MakeInterface); ok {
+			what = typeName(mi.X.Type())
+		}
+		c.check(guarded, rule, "extended request decoded only if configured: "+what, p.Pos(in.Pos()), "reached only after the name was found in sftpExtensions",
+			"the request is given a specific packet (and is then served) for any built-in name, whether or not SetSFTPExtensions left it in the advertised list: a client is told the extension is absent and the server performs it anyway")
+	})
+	c.check(n >= 3, rule, "extended request kinds", p.Pos(ub.Pos()), fmt.Sprintf("%d specific packets", n), fmt.Sprintf("only %d specific packets assigned in the extended decoder", n))
 }
